@@ -273,6 +273,90 @@ def einsumR (eq : EinEq) (x y : Tensor α) : Except PyErr (Tensor α) :=
         x.at (opIdx eq.a x.shape env) * y.at (opIdx eq.b y.shape env)))))
   else .error .RuntimeError
 
+/-! ### the equation string: implicit output and the ellipsis (what `torch.einsum` does before contracting)
+
+`cplx.einsum` hands `equation` to `torch.einsum` unchanged, so every form torch accepts is accepted: `"ij,jk"` (no `->`: the
+output is made of the labels that occur exactly once, sorted) and `"...j,jk->...k"` (`...` stands for the axes of an operand
+not covered by its named subscripts; the ellipsis axes of the operands are aligned FROM THE RIGHT and broadcast; in
+implicit mode they come first in the output; left out of an explicit output they are summed).  The string is cut into
+tokens by the harness (labels = character codes, `...` = `Tok.ell`, spaces dropped); everything after that is modelled:
+`elabEq` turns a raw equation plus the operand ranks into an explicit `EinEq`, giving the ellipsis axes fresh labels. -/
+
+/-- a subscript: a named label or the ellipsis `...` -/
+inductive Tok where
+  | lab (l : Nat)
+  | ell
+  deriving Repr, DecidableEq
+
+/-- a tokenised equation: the two operand subscripts and the output subscripts when `->` is present -/
+structure RawEq where
+  a : List Tok
+  b : List Tok
+  out : Option (List Tok)
+  deriving Repr
+
+/-- the named labels of a subscript list, in order -/
+def Tok.labels : List Tok → List Nat
+  | [] => []
+  | .lab l :: ts => l :: Tok.labels ts
+  | .ell :: ts => Tok.labels ts
+
+/-- number of `...` in a subscript list -/
+def Tok.ellCount : List Tok → Nat
+  | [] => 0
+  | .lab _ :: ts => Tok.ellCount ts
+  | .ell :: ts => Tok.ellCount ts + 1
+
+/-- the number of axes the ellipsis of an operand of rank `r` covers (0 when there is none); `none` when torch rejects the
+operand: without ellipsis the number of subscripts must equal the rank, with one ellipsis it must not exceed it, a second
+ellipsis is an error -/
+def ellCover (ts : List Tok) (r : Nat) : Option Nat :=
+  let n := (Tok.labels ts).length
+  match Tok.ellCount ts with
+  | 0 => if n = r then some 0 else none
+  | 1 => if n ≤ r then some (r - n) else none
+  | _ => none
+
+/-- the labels given to the ellipsis axes: the equation has `K` of them, `base, …, base+K-1`; an ellipsis that covers
+`k ≤ K` axes gets the LAST `k` (alignment from the right) -/
+def ellLabels (base K k : Nat) : List Nat := (List.range k).map (fun i => base + (K - k) + i)
+
+/-- subscripts with the ellipsis (covering `k` axes) replaced by its labels -/
+def expandSub (base K k : Nat) : List Tok → List Nat
+  | [] => []
+  | .lab l :: ts => l :: expandSub base K k ts
+  | .ell :: ts => ellLabels base K k ++ expandSub base K k ts
+
+/-- insertion into a sorted list -/
+def insertSorted (x : Nat) : List Nat → List Nat
+  | [] => [x]
+  | y :: ys => if x ≤ y then x :: y :: ys else y :: insertSorted x ys
+
+/-- insertion sort -/
+def sortNat (l : List Nat) : List Nat := l.foldr insertSorted []
+
+/-- implicit output: the labels that occur exactly once in the operands, in increasing order (torch orders `A-Z` before
+`a-z`, as the character codes do) -/
+def onceLabels (l : List Nat) : List Nat := sortNat (l.filter (fun x => l.count x == 1))
+
+/-- `torch.einsum`'s treatment of the equation for operands of tensor shapes `sa`, `sb`: an explicit `EinEq` whose ellipsis
+axes carry labels larger than every named label, or `RuntimeError` -/
+def elabEq (raw : RawEq) (sa sb : List Nat) : Except PyErr EinEq :=
+  match ellCover raw.a sa.length, ellCover raw.b sb.length with
+  | some ka, some kb =>
+    let K := max ka kb
+    let named := Tok.labels raw.a ++ Tok.labels raw.b
+    let base := (named ++ (match raw.out with | some o => Tok.labels o | none => [])).foldl max 0 + 1
+    let a := expandSub base K ka raw.a
+    let b := expandSub base K kb raw.b
+    match raw.out with
+    | none => .ok ⟨a, b, ellLabels base K K ++ onceLabels named⟩
+    | some o => if Tok.ellCount o ≤ 1 then .ok ⟨a, b, expandSub base K K o⟩ else .error .RuntimeError
+  | _, _ => .error .RuntimeError
+
+/-- an equation no pair of operands satisfies (unknown output label): stands for a string torch rejects -/
+def badEq : EinEq := ⟨[], [], [0]⟩
+
 /-! ### products (cplx.py:83-224, 298-317) -/
 
 /-- tensor part of `scalar_mult(x, y)` (cplx.py:98-107):
@@ -466,6 +550,15 @@ def einsum (eq : EinEq) (a b : Tensor α) (realPart imagPart : Bool) : Except Py
     pure (.re i)
   | false, false => pure .none
 
+/-- `einsum(equation, a, b, real_part, imag_part)` for a tokenised equation string: the equation is elaborated against the
+tensor shapes of the operands (the shape of `real(a)` / `imag(a)`: `a.shape` without the complex axis); a string torch
+rejects behaves like `badEq`, i.e. `RuntimeError` at the first `torch.einsum` call and nothing at all when no part is
+requested -/
+def einsumS (raw : RawEq) (a b : Tensor α) (realPart imagPart : Bool) : Except PyErr (EinRes α) :=
+  match elabEq raw (a.shape.drop 1) (b.shape.drop 1) with
+  | .ok eq => einsum eq a b realPart imagPart
+  | .error _ => einsum badEq a b realPart imagPart
+
 /-- `conj(x)` (cplx.py:248-257) -/
 def conj (x : Tensor α) : Except PyErr (Tensor α) := do
   let xr ← real x
@@ -503,54 +596,91 @@ def normSqr (x : Tensor α) : Except PyErr (Tensor α) := do
 
 end ring
 
-/-! ### division, modulus, sigmoid (cplx.py:265-295, 319-389) -/
+/-! ### division, modulus, sigmoid (cplx.py:268-301, 326-408 of the tree with `proposed/F17_all.diff` applied)
+
+The formulas are those of the code AFTER the proposed repairs F17 (`proposed/F17_*.diff`): the modulus is `torch.hypot`,
+quotients scale the divisor by its larger component before `|·|²` is formed, `norm` scales by the largest component, the
+sigmoid forms `e^{-z}` in the right half plane and `e^{z}` in the left one.  Over ℝ these are the same numbers as the
+textbook formulas (theorems `C15_absolute_value`, `C15_inverse`, …); over `Float` no intermediate leaves the finite range
+when the result is representable, which the pre-repair formulas (`|z|²` formed explicitly, `e^z/(1+e^z)`) do for moduli
+beyond 1e±154 resp. `Re z > 709.78`. -/
 section field
-variable {α : Type} [Add α] [Mul α] [Neg α] [Sub α] [Div α] [Zero α] [One α] [Transc α]
+variable {α : Type} [Add α] [Mul α] [Neg α] [Sub α] [Div α] [Zero α] [One α] [Transc α] [LT α] [DecidableLT α]
 
-/-- `absolute_value(x) = real(elementwise_mult(x, conj(x))).sqrt_()` (cplx.py:285-295) -/
+/-- `hypot(a, b)` (C99 / `torch.hypot`): `sqrt(a² + b²)` computed without forming `a²` or `b²` at full scale:
+`m * sqrt((a/m)² + (b/m)²)` with `m = max |a| |b|`; `hypot(0, 0) = 0` -/
+def hypot (a b : α) : α :=
+  let m := Transc.max (Transc.abs a) (Transc.abs b)
+  if 0 < m then m * Transc.sqrt ((a / m) * (a / m) + (b / m) * (b / m)) else m
+
+/-- `absolute_value(x) = torch.hypot(real(x), imag(x))` (cplx.py:292-301, after F17_abs) -/
 def absoluteValue (x : Tensor α) : Except PyErr (Tensor α) := do
-  let xs ← conj x
-  let p ← elementwiseMult x xs
-  let r ← real p
-  pure (r.map Transc.sqrt)
+  let xr ← real x
+  let xi ← imag x
+  pure (xr.zip hypot xi)
 
-/-- `elementwise_division(x, y)` (cplx.py:265-282): `x·conj(y)` divided (broadcast `div_`) by
-`absolute_value(y).pow_(2)` -/
+/-- `torch.max(real(z).abs(), imag(z).abs())`: the larger component of every entry (cplx.py:283, 375) -/
+def cscale (z : Tensor α) : Except PyErr (Tensor α) := do
+  let zr ← real z
+  let zi ← imag z
+  pure (zr.zip (fun a b => Transc.max (Transc.abs a) (Transc.abs b)) zi)
+
+/-- `elementwise_division(x, y)` (cplx.py:268-289, after F17_division): with `scale` the larger component of `y`,
+`(x/scale)·conj(y/scale)` divided (broadcast `div_`) by `absolute_value(y/scale).pow_(2)` -/
 def elementwiseDivision (x y : Tensor α) : Except PyErr (Tensor α) :=
   if x.shape ≠ y.shape then .error .ValueError
   else do
-    let ys ← conj y
-    let ab ← absoluteValue y
+    let sc ← cscale y
+    let y' ← bop (fun a b => a / b) y sc
+    let ys ← conj y'
+    let ab ← absoluteValue y'
     let sq := ab.map (fun v => v * v)
-    let p ← elementwiseMult x ys
+    let x' ← bop (fun a b => a / b) x sc
+    let p ← elementwiseMult x' ys
     bop (fun a b => a / b) p sq
 
-/-- `inverse(z) = conj(z) / real(scalar_mult(z, conj(z)))` (cplx.py:354-366) -/
+/-- `inverse(z)` (cplx.py:364-380, after F17_division): with `scale` the larger component of `z` and `w = z/scale`,
+`conj(w) / real(scalar_mult(w, conj(w))) / scale` -/
 def inverse (z : Tensor α) : Except PyErr (Tensor α) := do
-  let zs ← conj z
-  let p ← scalarMult z zs
+  let sc ← cscale z
+  let z' ← bop (fun a b => a / b) z sc
+  let zs ← conj z'
+  let p ← scalarMult z' zs
   let den ← real p
-  bop (fun a b => a / b) zs den
+  let q ← bop (fun a b => a / b) zs den
+  bop (fun a b => a / b) q sc
 
-/-- `scalar_divide(x, y) = scalar_mult(x, inverse(y))` (cplx.py:338-351) -/
+/-- `scalar_divide(x, y) = scalar_mult(x, inverse(y))` (cplx.py:348-361) -/
 def scalarDivide (x y : Tensor α) : Except PyErr (Tensor α) := do
   let iy ← inverse y
   scalarMult x iy
 
-/-- `norm(x) = norm_sqr(x).sqrt_()` (cplx.py:381-390) -/
+/-- `x.abs().max()` of a non-empty tensor -/
+def maxAbs (l : List α) : α := l.foldl (fun acc v => Transc.max acc (Transc.abs v)) 0
+
+/-- `norm(x)` (cplx.py:395-408, after F17_norm): `scale = x.abs().max()` (1 for the zero tensor),
+`norm_sqr(x / scale).sqrt_().mul_(scale)` -/
 def norm (x : Tensor α) : Except PyErr (Tensor α) := do
-  let n ← normSqr x
-  pure (n.map Transc.sqrt)
+  let m := maxAbs x.data
+  let sc := if 0 < m then m else 1
+  let n ← normSqr (x.map (fun v => v / sc))
+  pure (n.map (fun v => Transc.sqrt v * sc))
 
 /-- numpy's `exp(x + iy)` -/
 def expC (z : C α) : C α := (Transc.exp z.1 * Transc.cos z.2, Transc.exp z.1 * Transc.sin z.2)
 
-/-- `np.exp(z) / (1 + np.exp(z))` on one complex number -/
+/-- the logistic function on one complex number as coded after F17_sigmoid (cplx.py:338-342):
+`right = Re z > 0`, `ez = exp(-z)` if `right` else `exp(z)`, result `(1 if right else ez) / (1 + ez)`
+(complex quotient `C.div`) -/
 def sigC (z : C α) : C α :=
-  let e := expC z
-  C.div e (1 + e.1, e.2)
+  if 0 < z.1 then
+    let e := expC (C.neg z)
+    C.div C.one (1 + e.1, e.2)
+  else
+    let e := expC z
+    C.div e (1 + e.1, e.2)
 
-/-- `sigmoid(x, y)` (cplx.py:320-335) of two REAL tensors: numpy broadcasting of `x + 1j*y`
+/-- `sigmoid(x, y)` (cplx.py:326-345) of two REAL tensors: numpy broadcasting of `x + 1j*y`
 (`ValueError` when they do not broadcast), then `[real(out), imag(out)]` -/
 def sigmoid (x y : Tensor α) : Except PyErr (Tensor α) :=
   match broadcastShape x.shape y.shape with
